@@ -66,6 +66,26 @@ def scripts(rnd, quick, F):
     rnd.shuffle(sc)
     for i in range(0, len(sc), 300):
         yield sc[i:i + 300]
+    # sessions: streams of several framed units on one instance with a random pattern of allocation failures,
+    # frames around the capacity and reads around the limit in between
+    for _ in range(80 if quick else 1000):
+        tr, mem16 = rnd.randint(0, 1), rnd.randint(0, 1)
+        ws = 2 if mem16 else 1
+        cap = rnd.choice([16, 20, 28, 32, 40, 64])
+        units = []
+        for _ in range(rnd.randint(2, 8)):
+            k = rnd.random()
+            if k < 0.3:
+                n = rnd.choice([0, 1, (cap - 16) // ws, (cap - 14) // ws, (cap - 12) // ws + 1, cap // ws + 1])
+                o = request(tr, 0, mem16, rnd.randint(0, 65535), rnd.getrandbits(32), max(0, n))
+            elif k < 0.8:
+                n = rnd.randint(0, max(0, (cap + 4 - 16) // ws))
+                o = request(tr, 1, mem16, rnd.randint(0, 65535), rnd.getrandbits(32), n, [rnd.choice([192, 219, rnd.randint(0, 255)]) for _ in range(n * ws)])
+            else:
+                o = request(tr, 0, mem16, 1, 2, 3)[:rnd.randint(0, 13)]
+            units.append((o, dict(allocfail=1 if rnd.random() < 0.25 else 0, verdict=rnd.choice([0, 0, 5, 11]),
+                                  data=[rnd.randint(0, 255) for _ in range(64)])))
+        yield session(rnd, tr, mem16, cap, units)
 
 
 def run(tier):
